@@ -315,9 +315,13 @@ Proof.
     + destruct (negb (mem iss (st_stream st))); [discriminate|].
       apply with_attr_ok in H. destruct H as (ia & Eia & H). inversion H; subst. split; [|reflexivity].
       apply ranges_upd; [exact Hr|]. destruct Hr as [Hd Hr]. destruct (Hr iss ia Eia) as (Hb & Ha & Ho).
-      unfold in_range. cbn. split; [|split; assumption].
-      destruct (prev_of iss (st_stream st) None) as [p|]; [|exact Hb].
-      destruct (aget (st_attr st) p) as [pa|] eqn:Ep; [|exact Hb]. destruct (Hr p pa Ep) as (_ & Hpa & _). exact Hpa.
+      unfold in_range. cbn.
+      assert (Hbef : 0 <= match prev_of iss (st_stream st) None with
+                          | Some p => match aget (st_attr st) p with Some pa => a_after pa | None => a_before ia end
+                          | None => a_before ia end < st_nchars st).
+      { destruct (prev_of iss (st_stream st) None) as [p|]; [|exact Hb].
+        destruct (aget (st_attr st) p) as [pa|] eqn:Ep; [|exact Hb]. destruct (Hr p pa Ep) as (_ & Hpa & _). exact Hpa. }
+      lia.
     + inversion H; subst. split; [|reflexivity]. apply ranges_upd; [exact Hr|]. destruct Hr as [Hd Hr].
       destruct (last (map Some (st_stream st)) None) as [lst|].
       * destruct (aget (st_attr st) lst) as [la|] eqn:El.
